@@ -39,7 +39,7 @@ def _work(args):
                     continue
                 approx = s.get('approx', False)
                 ref = norm_rows(base['rows'], approx)
-                for m in modes:
+                for m in (u.get('modes') or modes):
                     req = {'op': 'sql', 'db': 'd', 'sql': s['sql']}
                     if m == 'prod':
                         req['mode'] = 'prod'
